@@ -280,6 +280,12 @@ type DnsWorld struct {
 func newDnsWorld(w *World, chans server.Channels) (*DnsWorld, error) {
 	d := &DnsWorld{W: w, Comm: &memServerComm{}, Path: &w.Opt.DnsPath}
 	d.Lis = sdns.NewServerDnsListener(DnsDomain, d.Comm)
+	if w.Opt.RealLoop == "dns" {
+		ds := server.NewDnsServer()
+		ds.ServerConfig = w.SrvCfg
+		go ds.VerifServe(d.Lis, chans, false)
+		return d, nil
+	}
 	go func() {
 		for {
 			c, err := d.Lis.Accept()
